@@ -155,6 +155,7 @@ class Cube(object):
                 raise ValueError(
                     "Cube.grid() requires either the desired grid 'size'/'shape' or point 'spacing'"
                 )
+            spacing = cat_scalars(spacing, num=self.ndim, dtype=self.dtype, device=self.device)
             size = self.extent().div(spacing).round()
             size = torch.Size(size.type(torch.int).tolist())
             if align_corners:
